@@ -497,6 +497,32 @@ impl Ctx {
                 };
                 format!("len={} full={}", v.len(), hex(&v))
             }
+            "cvecrt" => {
+                // cvecrt <level> <zlib> <in>: one-shot compress, then the matching one-shot decompress
+                let inp = self.bytes(a[3]);
+                let z = num(a[2]) != 0;
+                let v = if z {
+                    miniz_oxide::deflate::compress_to_vec_zlib(&inp, num(a[1]) as u8)
+                } else {
+                    miniz_oxide::deflate::compress_to_vec(&inp, num(a[1]) as u8)
+                };
+                let back = if z {
+                    miniz_oxide::inflate::decompress_to_vec_zlib(&v)
+                } else {
+                    miniz_oxide::inflate::decompress_to_vec(&v)
+                };
+                let rt = match back {
+                    Ok(b) => {
+                        if b == inp {
+                            "ok".to_string()
+                        } else {
+                            format!("DIFFERENT:{}", b.len())
+                        }
+                    }
+                    Err(e) => format!("ERR:{}", e.status as i8),
+                };
+                format!("len={} rt={} ch={:016x} full={}", v.len(), rt, fnv(&v), if v.len() <= 300000 { hex(&v) } else { "-".into() })
+            }
             #[cfg(miniz_oxide_verif)]
             "cstate" => {
                 let p = miniz_oxide::deflate::core::verif::params(self.c.as_ref().unwrap());
@@ -715,6 +741,8 @@ impl Ctx {
         let mut why = "cap";
         let mut finishing = false;
         let mut marks = String::new();
+        let mut viol = 0usize;
+        let mut prev_unused = true;
         while calls < 400000 {
             let it = &sc[calls % sc.len()];
             let end = in_off.saturating_add(it[0] as usize).min(input.len());
@@ -734,6 +762,9 @@ impl Ctx {
                 let r = compress(c, chunk, &mut ob, tdflush(fl));
                 (r.0 as i32 as i64, r.1, r.2)
             };
+            if ic > chunk.len() || oc > ob.len() {
+                viol += 1;
+            }
             out.extend_from_slice(&ob[..oc.min(ob.len())]);
             in_off += ic;
             calls += 1;
@@ -742,11 +773,13 @@ impl Ctx {
             if calls <= 40 {
                 trace.push_str(&format!("{}/{}/{}/{};", fl, last, ic, oc));
             }
-            // flush points (C12): a non-None, non-Finish flush that consumed everything offered and
-            // left output space unused
-            if fl != 0 && fl != 4 && ic == chunk.len() && oc < ob.len() && marks.len() < 400 {
+            // flush points (C12): a sync/full/partial flush requested when no earlier output was pending
+            // (the previous call left output space unused), which consumed everything offered and
+            // left output space to spare
+            if (1..=3).contains(&fl) && prev_unused && ic == chunk.len() && oc < ob.len() && marks.len() < 400 {
                 marks.push_str(&format!("{}:{}:{};", fl, in_off, out.len()));
             }
+            prev_unused = oc < ob.len();
             if last == 1 || last < 0 && !(stream && last == -5) {
                 why = "end";
                 break;
@@ -762,12 +795,13 @@ impl Ctx {
             }
         }
         format!(
-            "st={} in={} out={} calls={} why={} th={:016x} ad={} ub={} marks={} tr={} full={}",
+            "st={} in={} out={} calls={} why={} viol={} th={:016x} ad={} ub={} marks={} tr={} full={}",
             last,
             in_off,
             out.len(),
             calls,
             why,
+            viol,
             th,
             c.adler32(),
             c.unwritten_bit_count(),
